@@ -244,7 +244,8 @@ fn tree_part(tier: Tier, rep: &mut Report) {
     let mut camps: Vec<(Alphabet, Vec<(usize, usize)>)> = vec![(Alphabet { leaves: leaves.clone(), uns: uns.clone(), bins: bins_all.clone() }, vec![(1, 0), (1, 1), (2, 0), (2, 1), (3, 0)])];
     if tier.thorough() {
         camps.push((Alphabet { leaves: leaves.clone(), uns: uns.clone(), bins: bins_all.clone() }, vec![(3, 1), (3, 2), (4, 0)]));
-        camps.push((Alphabet { leaves: vec![Tree::Lit("1".into()), Tree::Lit("2.5".into()), Tree::Lit("true".into()), Tree::var("x")], uns: uns.clone(), bins: bins_small.clone() }, vec![(4, 1), (5, 0)]));
+        camps.push((Alphabet { leaves: vec![Tree::Lit("1".into()), Tree::Lit("2.5".into()), Tree::Lit("true".into()), Tree::var("x")], uns: uns.clone(), bins: bins_small.clone() }, vec![(4, 1)]));
+        camps.push((Alphabet { leaves: vec![Tree::Lit("2".into()), Tree::Lit("true".into()), Tree::var("x")], uns: vec![], bins: ["+", "-", "*", "==", "if", "else"].iter().map(|n| f(n)).collect() }, vec![(5, 0)]));
     } else {
         camps.push((Alphabet { leaves: vec![Tree::Lit("1".into()), Tree::Lit("2.5".into()), Tree::Lit("true".into()), Tree::var("x")], uns: uns.clone(), bins: bins_small.clone() }, vec![(3, 1), (4, 0)]));
     }
